@@ -903,8 +903,8 @@ func (vfs *MemFS) removeAll(parent *dirNode) error {
 		return nil
 	}
 
-	// the entries are listed then removed : read, write and search permissions are needed.
-	if ok := parent.checkPermission(avfs.OpenRead|avfs.OpenWrite|avfs.OpenLookup, vfs.User()); !ok {
+	// the entries are listed : read and search permissions are needed.
+	if ok := parent.checkPermission(avfs.OpenRead|avfs.OpenLookup, vfs.User()); !ok {
 		return vfs.err.PermDenied
 	}
 
@@ -912,6 +912,8 @@ func (vfs *MemFS) removeAll(parent *dirNode) error {
 		// a directory stays locked from the removal of its content to its own removal.
 		child.Lock()
 
+		// the content of a sub directory is removed first, whatever happens to the directory itself :
+		// the first error is the deepest one, as for os.RemoveAll.
 		if c, ok := child.(*dirNode); ok {
 			err := vfs.removeAll(c)
 			if err != nil {
@@ -919,6 +921,13 @@ func (vfs *MemFS) removeAll(parent *dirNode) error {
 
 				return err
 			}
+		}
+
+		// the entry is removed : write permission is needed.
+		if ok := parent.checkPermission(avfs.OpenWrite, vfs.User()); !ok {
+			child.Unlock()
+
+			return vfs.err.PermDenied
 		}
 
 		if !parent.mayUnlink(child.ownedBy(vfs.User()), vfs.User()) {
